@@ -1388,6 +1388,22 @@ package main
 //@   ensures [C20] fields_kept: r != nil && r.Data != nil && r.Data.Topic == data.Topic && r.Data.FromUserId == data.From
 //@   ensures [C20] seq_kept: 0 <= data.SeqId && data.SeqId < 2147483648 ==> int(r.Data.SeqId) == data.SeqId
 
+// C20 (extension): the description and the subscription rows of a {meta} reply carry the same state, marks and access
+// modes over gRPC as in JSON (marks stated for values a 32-bit field can hold).
+//@ func pbTopicDescSerialize(desc *MsgTopicDesc) (out *pbx.TopicDesc)
+//@   modifies inferred
+//@   ensures [C20] absent_stays_absent: desc == nil ==> out == nil
+//@   ensures [C20] state_kept: desc != nil ==> out != nil && out.State == desc.State && out.Online == desc.Online && out.IsChan == desc.IsChan
+//@   ensures [C20] marks_kept: desc != nil && 0 <= desc.SeqId && desc.SeqId < 2147483648 && 0 <= desc.ReadSeqId && desc.ReadSeqId < 2147483648 && 0 <= desc.RecvSeqId && desc.RecvSeqId < 2147483648 && 0 <= desc.DelId && desc.DelId < 2147483648 ==> int(out.SeqId) == desc.SeqId && int(out.ReadId) == desc.ReadSeqId && int(out.RecvId) == desc.RecvSeqId && int(out.DelId) == desc.DelId
+//@   ensures [C20] acs_kept: desc != nil && desc.Acs != nil ==> out.Acs != nil && out.Acs.Want == desc.Acs.Want && out.Acs.Given == desc.Acs.Given
+//@   ensures [C20] defacs_kept: desc != nil && desc.DefaultAcs != nil ==> out.Defacs != nil && out.Defacs.Auth == desc.DefaultAcs.Auth && out.Defacs.Anon == desc.DefaultAcs.Anon
+//@ func pbTopicSubSerialize(sub *MsgTopicSub) (out *pbx.TopicSub)
+//@   requires [C20] sub != nil
+//@   modifies inferred
+//@   ensures [C20] who_and_where_kept: out != nil && out.UserId == sub.User && out.Topic == sub.Topic && out.Online == sub.Online
+//@   ensures [C20] marks_kept: 0 <= sub.SeqId && sub.SeqId < 2147483648 && 0 <= sub.ReadSeqId && sub.ReadSeqId < 2147483648 && 0 <= sub.RecvSeqId && sub.RecvSeqId < 2147483648 && 0 <= sub.DelId && sub.DelId < 2147483648 ==> int(out.SeqId) == sub.SeqId && int(out.ReadId) == sub.ReadSeqId && int(out.RecvId) == sub.RecvSeqId && int(out.DelId) == sub.DelId
+//@   ensures [C20] acs_kept: out.Acs != nil && out.Acs.Want == sub.Acs.Want && out.Acs.Given == sub.Acs.Given
+
 // C20: a presence notice keeps its actor and its target apart on the wire.
 //@ func pbServPresSerialize(pres *MsgServerPres) (r *pbx.ServerMsg_Pres)
 //@   requires [C20] pres != nil
